@@ -19,7 +19,7 @@ ASSUMPTIONS = [
 
 
 def gen_cases(tier, seed):
-    n = 500 if tier == "quick" else 15000
+    n = 500 if tier == "quick" else 5000
     out = []
     for i in range(n):
         s = env.seed_for(seed, ID, tier, i)
